@@ -170,7 +170,9 @@ func checkBool(c Case, r *vf.R) error {
 			}
 			// F01f: an operand with an edge shorter than two cells of the 1e-8 snap grid (a needle that collapses when snapped):
 			// P.And(Q) of P=M-2 -2L-2.00000001 -2.00000001L0 3z, Q=M-2 -3L-2 1L-1 1L-1 -3z panics "next node for result polygon is nil"
-			if r.Excluded("F01f", tinyEdge(c.P) || tinyEdge(c.Q)) {
+			// ... or a vertex at a distance between 0 and 2e-8 from an edge of either operand that it is not an end point of
+			// (Q.And(P) with P=M2 -3L-0.99999999 1L-1 3z, Q=M-1 2L3 2L3 3L-1 3z): the same sub-grid proximity
+			if r.Excluded("F01f", tinyEdge(c.P) || tinyEdge(c.Q) || nearTouch(c.P, c.Q)) {
 				return nil
 			}
 			// curved operands are flattened first: the open findings of Flatten (C03) apply to their segments
@@ -214,6 +216,51 @@ func checkBool(c Case, r *vf.R) error {
 		return nil
 	}
 	return err
+}
+
+// nearTouch: whether some vertex of the (flat parts of the) operands lies at a distance between 0 and 2e-8 from an edge of
+// either operand.
+func nearTouch(p, q gen.PathSpec) bool {
+	type seg struct{ a, b [2]float64 }
+	var segs []seg
+	var pts [][2]float64
+	for _, ps := range []gen.PathSpec{p, q} {
+		var first, prev [2]float64
+		open := false
+		for _, c := range ps.Cmds {
+			switch c.Op {
+			case "M":
+				first = [2]float64{c.A[0], c.A[1]}
+				prev, open = first, true
+				pts = append(pts, first)
+			case "z":
+				if open && prev != first {
+					segs = append(segs, seg{prev, first})
+				}
+				open = false
+			default:
+				n := len(c.A)
+				cur := [2]float64{c.A[n-2], c.A[n-1]}
+				if c.Op == "L" && cur != prev {
+					segs = append(segs, seg{prev, cur})
+				}
+				pts = append(pts, cur)
+				prev = cur
+			}
+		}
+	}
+	for _, v := range pts {
+		for _, s := range segs {
+			dx, dy := s.b[0]-s.a[0], s.b[1]-s.a[1]
+			t := ((v[0]-s.a[0])*dx + (v[1]-s.a[1])*dy) / (dx*dx + dy*dy)
+			t = math.Max(0, math.Min(1, t))
+			d := math.Hypot(v[0]-(s.a[0]+t*dx), v[1]-(s.a[1]+t*dy))
+			if 0 < d && d < 2e-8 {
+				return true
+			}
+		}
+	}
+	return false
 }
 
 // tinyEdge: whether a flat contour has an edge (the closing one included) of a length between 0 and 2e-8.
